@@ -129,6 +129,9 @@ def add (P Q : Pt) : Pt :=
   let H := (B + A) % p
   ⟨E * F % p, G * H % p, F * G % p, E * H % p⟩
 
+/-- −(x, y) = (−x, y) -/
+def neg (P : Pt) : Pt := ⟨(p - P.X % p) % p, P.Y, P.Z, (p - P.T % p) % p⟩
+
 def smulAux : Nat → Nat → Pt → Pt → Pt
   | 0, _, _, acc => acc
   | fuel + 1, n, Q, acc => smulAux fuel (n / 2) (add Q Q) (if n % 2 = 1 then add acc Q else acc)
